@@ -78,7 +78,7 @@ type WalletSpec struct {
 func NewPopulation(t *testing.T, tag string, specs []WalletSpec) *Population {
 	InitBLS()
 	ctx := context.Background()
-	p := &Population{Store: scratch.New(), Encryptor: keystorev4.New(keystorev4.WithCost(t, 10)), byKey: map[string]*AcctInfo{}, byPath: map[string]*AcctInfo{}}
+	p := &Population{Store: &lockedStore{inner: scratch.New()}, Encryptor: keystorev4.New(keystorev4.WithCost(t, 10)), byKey: map[string]*AcctInfo{}, byPath: map[string]*AcctInfo{}}
 	n := 0
 	for _, spec := range specs {
 		switch spec.Kind {
